@@ -421,6 +421,11 @@ func caseLines(prop, line string, sc scenario) []string {
 		}
 		out = append(out, "#split="+strings.Join(f, ","))
 	}
+	if sc.hasPad() {
+		// the script as the peer sends it, with the sizes of its oversized units (the line has the
+		// segmentation the decoder's bounded reads induce)
+		out = append(out, "#oversized="+clearFieldOf(sc.clear, true))
+	}
 	if sc.mech != 0 {
 		// which mechanisms the real SASL feature is configured with (the model sees its masks)
 		out = append(out, "#mech="+strconv.Itoa(sc.mech))
@@ -917,6 +922,34 @@ func (c *ctx) corpus(tees []int) {
 		[]unit{hdr(true), list()}, tees, "corpus")
 }
 
+// oversized: units larger than the decoder's read-ahead (4096 bytes), around its boundary and well
+// beyond it: white space before the header, a foreign element where the list is expected, and —
+// the interesting one — clear text pipelined behind <proceed/> in the same segment: what fits into
+// the read-ahead is dropped with it, what does not is still on the connection when the TLS layer
+// starts.  Raw carriers only (a *websocket.Conn reads through a buffer of its own).
+func (c *ctx) oversized(tees []int) {
+	n := 0
+	for _, pad := range []int{100, 3900, 3990, 4020, 4050, 4080, 4110, 5000, 8300, 13000} {
+		for _, ck := range []int{0, 1, 2, 4, 5} {
+			big := func(k byte) unit { return unit{kind: k, pad: pad} }
+			tls := []pu{{u: hdr(true)}, {u: list()}}
+			for _, cl := range [][][]unit{
+				{{hdr(true), list(it(0, true))}, {u('P'), big('O')}},
+				{{hdr(true), list(it(0, true))}, {u('P'), big('W'), hdr(true), list()}},
+				{{hdr(true), list(it(0, true)), u('P'), big('W')}},
+				{{hdr(true), list()}, {u('P'), big('O'), u('M')}},
+				{{big('W'), hdr(true), list(it(0, false))}, {u('P')}},
+				{{hdr(true), big('O'), list(it(0, true))}},
+				{{hdr(true), list(it(0, true))}, {big('W'), u('P')}},
+				{{hdr(true), list(it(0, true))}, {big('O'), u('P')}},
+			} {
+				n++
+				c.check(scenario{ck: ck, clear: cl, prot: tls, domain: n % 4, remote: (n / 2) % 4, explicit: n%3 == 0}, []int{1 + n%3}, "oversized")
+			}
+		}
+	}
+}
+
 // headerTos: every 'to' a header can carry (nil: none)
 // wsKinds: the kinds of connection with the WebSocket framing; allClearKinds: every clear-text kind
 var wsKinds = []int{4, 5, 6, 7, 8}
@@ -1398,6 +1431,20 @@ func Run(r *common.Run) error {
 				scs[len(scs)-1].mech, _ = strconv.Atoi(strings.TrimPrefix(l, "#mech="))
 				continue
 			}
+			if strings.HasPrefix(l, "#oversized=") && len(scs) > 0 {
+				var clear [][]unit
+				for _, seg := range strings.Split(strings.TrimPrefix(l, "#oversized="), "/") {
+					var us []unit
+					for _, x := range strings.Split(seg, ",") {
+						if un, err := parseUnit(x); err == nil {
+							us = append(us, un)
+						}
+					}
+					clear = append(clear, us)
+				}
+				scs[len(scs)-1].clear = clear
+				continue
+			}
 			if strings.HasPrefix(l, "#split=") && len(scs) > 0 {
 				var sp []int
 				for _, x := range strings.Split(strings.TrimPrefix(l, "#split="), ",") {
@@ -1471,6 +1518,7 @@ func Run(r *common.Run) error {
 	c.corpus(all)
 	c.histories(r.Pick(60, 600), false)
 	c.histories(r.Pick(40, 300), true)
+	c.oversized(all)
 	c.exhaustive(all)
 	c.random(r.Pick(2500, 20000), all)
 	c.deep(r.Pick(800, 8000), all)
